@@ -47,6 +47,13 @@ def work(args):
                 if rcc == 1:
                     verdict = 'still-caught'
                     break
+            if verdict == 'LOST':
+                # a later fix: commit may have removed what the change relied on: the change's own demo then passes with the patch
+                demos = sorted(glob.glob(os.path.join(d, 'demo*')))
+                if demos:
+                    rcd, _ = sh('/venv/bin/python %s %s' % (demos[0], wt), timeout=900)
+                    if rcd == 0:
+                        verdict = 'no-longer-breaks'
             res.append((name, verdict, detail))
             print("%-14s %-22s %s" % (name, verdict, detail), flush=True)
     finally:
@@ -64,9 +71,10 @@ def main():
     with ThreadPoolExecutor(par) as ex:
         out = [r for rs in ex.map(work, lanes) for r in rs]
     lost = [r for r in out if r[1] == 'LOST']
-    print("\n%d changes: %d still caught, %d LOST, %d patches no longer apply, %d never caught" % (
+    print("\n%d changes: %d still caught, %d LOST, %d patches no longer apply, %d no longer break the property (their own demo passes), %d never caught" % (
         len(out), sum(1 for r in out if r[1] == 'still-caught'), len(lost),
-        sum(1 for r in out if r[1] == 'patch-does-not-apply'), sum(1 for r in out if r[1] == 'never-caught')))
+        sum(1 for r in out if r[1] == 'patch-does-not-apply'), sum(1 for r in out if r[1] == 'no-longer-breaks'),
+        sum(1 for r in out if r[1] == 'never-caught')))
     for r in lost:
         print("LOST", r)
     return 1 if lost else 0
